@@ -261,7 +261,7 @@ CHECKS["C02"] = dict(
                  "yescrypt RW/WORM flavours and sunmd5 rest on the released library only (identical across releases, not re-derived from the papers)",
                  "bcrypt model: ref/ref_bcrypt.py, boxes derived from pi at run time, checked against six published crypt_blowfish vectors on every run; costs 4..5 quick, 4..7 thorough",
                  "the bit-level reference DES is cross-checked against libgcrypt's DES on every run"],
-    nonvacuous=lambda s, t: None if s.get("release_comparisons", 0) > 20000 and s.get("model_comparisons", 0) > 10000 and s.get("bcrypt_model_comparisons", 0) > 2000 and s.get("bcrypt_model_2a_countermeasure_cases", 0) > 3 else "too few comparisons",
+    nonvacuous=lambda s, t: None if s.get("release_comparisons", 0) > 20000 and s.get("model_comparisons", 0) > 10000 and s.get("bcrypt_model_comparisons", 0) > 1500 and s.get("bcrypt_model_2a_countermeasure_cases", 0) > 3 else "too few comparisons",
     deadline=dict(quick=400, thorough=1700),
     manifest=dict(
         text="Bounded exhaustive exploration of the (phrase length, byte fill, salt length, cost spelling) grid for all 16 methods, every result "
